@@ -8,7 +8,7 @@ ID = 'C02'
 LEVEL = 'exploration'
 RULE = ('every string <=L over a 41-symbol alphabet (breaks, BOM, NEL/LS/PS, controls, astral, all indicators), every type '
         'look-alike found by an independent YAML 1.1 recogniser, folding words (<=N pieces over 8 space/break pieces), '
-        'simple-key threshold lengths, every container shape <=4 nodes over a leaf pool, sharing/recursion patterns, all '
+        'simple-key threshold lengths (raw 127-129 / 1023-1025 and keys whose escaped form crosses 1024), every container shape <=4 nodes over a leaf pool, sharing/recursion patterns, all '
         'leaves; each dumped with every option set within the deviation bound (and the full style x width x indent x '
         'allow_unicode product for strings) by SafeDumper and CSafeDumper and loaded by SafeLoader and CSafeLoader '
         '(4 pairings), compared by type-strict graph bisimulation incl. sharing partition. non-trivial = the value is not a '
@@ -118,6 +118,7 @@ def plan(tier, seed):
     jobs += [('look', k, 16) for k in range(16)]
     jobs += [('fold', 4 if q else 6, k, 64) for k in range(64)]
     jobs += [('thr', k) for k in range(12)]
+    jobs += [('esckey', k, 8) for k in range(8)]
     jobs += [('cont', k, 32, 1 if q else 2) for k in range(32)]
     jobs += [('leaves', k, 8, 1 if q else 2) for k in range(8)]
     return jobs
@@ -199,6 +200,16 @@ def run_job(job, T):
             roundtrip(T, 'thresholds', 'str', {s: s}, o, {'string': s, 'place': 'key'})
             roundtrip(T, 'thresholds', 'str', [{s: [s]}, {s}], o, {'string': s, 'place': 'nested-key'})
         T.sample('thresholds', {'len': len(s)})
+    elif kind == 'esckey':
+        s = None
+        for i, s in enumerate(U.escaped_keys()):
+            if i % job[2] != job[1]:
+                continue
+            T.nontrivial += 1
+            for o in opt_sets(1):
+                roundtrip(T, 'thresholds', 'str', {s: s}, o, {'string': s, 'place': 'key'})
+                roundtrip(T, 'thresholds', 'str', [{s: [s]}, {s}], o, {'string': s, 'place': 'nested-key'})
+        T.sample('thresholds', {'len': len(s), 'written': len(s.encode('unicode_escape'))})
     elif kind == 'cont':
         _, k, np_, dev = job
         opts = opt_sets(dev)
